@@ -428,6 +428,8 @@ func errShort(err error) string {
 
 // ---------------------------------------------------------------- classification helpers
 
+var labelSimpleRef = regexp.MustCompile(`(?i)\bFROM\s+([a-zA-Z_][a-zA-Z0-9_]*)\b`)
+var labelCTE = regexp.MustCompile(`(?i)\bWITH\s+(?:RECURSIVE\s+)?(\w+)(?:\s*\([^)]*\))?\s+AS\s*\(|,\s*(\w+)(?:\s*\([^)]*\))?\s+AS\s*\(`)
 var lateralNL = regexp.MustCompile(`\blateral[ \t]*[\n\r][\s]*\(`)
 
 var rpRe = regexp.MustCompile(`read_parquet\('([^']*)', union_by_name=true\)`)
@@ -446,6 +448,11 @@ func fastEligible(s string) bool {
 	}
 	rest := strings.TrimLeft(l[strings.Index(l, "from ")+5:], " \t\n")
 	if len(rest) > 0 && rest[0] == '(' {
+		return false
+	}
+	// since /repo 53c9b19: exactly one FROM <name> match, at the offset of that "from ", and nothing CTE-looking
+	refs := labelSimpleRef.FindAllStringIndex(l, -1)
+	if len(refs) != 1 || refs[0][0] != strings.Index(l, "from ") || labelCTE.MatchString(l) {
 		return false
 	}
 	if strings.ContainsAny(s, "'\"$") || strings.Contains(s, "--") || strings.Contains(s, "/*") {
